@@ -14,3 +14,7 @@ check('C16', 'runtime monitor: round-trip oracle parse(spell(s,q)).value == s on
       'Held on every literal executed: each BMP code point alone and embedded in all three quote styles (exhaustive), astral samples, generated strings biased to quotes/backslashes/escape look-alikes, escape-form soups vs Python, integers up to 4000 digits, decimals, 5000 identifier-shaped words, 200 __words. One language limitation of the verbatim style is a listed known finding.',
       'spell() is the harness definition of the canonical spelling; escape forms that are not valid Python literals are out of scope (C03 covers them).',
       'DESIGN.md 2/C16')
+check('C15', 'runtime monitor: reference-model oracle (scalar arithmetic/ordering model) on every operator x operand pair of a boundary corpus, plus law monitors over the observed outcomes (antisymmetry, <= as < or =, trichotomy, null lowest, floor-division identity, transitivity, integer ring laws)',
+      'Held on every evaluation executed: all ordered pairs of a 48-value (quick) / 107-value (thorough) corpus under 14 binary operators in variable and literal form, all unary operators, repetition with bool/float/null counts, sampled triples for transitivity and ring laws. NaN/inf excluded.',
+      'The model is Python arithmetic gated by the kinds the statement allows; and/or follow their docstrings.',
+      'DESIGN.md 2/C15')
